@@ -9,3 +9,24 @@ import "context"
 func (m *Manager) VerifReconcile(ctx context.Context) (found, deleted, errors int) {
 	return m.migrator.ReconcileOrphanedFiles(ctx)
 }
+
+// VerifOverlappedCycle is RunMigrationCycle with the candidate list worked through twice before
+// reconciliation -- what two overlapping cycles (scheduler + manual trigger, neither takes a
+// lock) or a retry holding a stale list do: scan, FindCandidates once, MigrateBatch(list),
+// MigrateBatch(same list), ReconcileOrphanedFiles.  Returns the number of errors the pieces report.
+func (m *Manager) VerifOverlappedCycle(ctx context.Context) int {
+	errs := 0
+	if _, err := m.ScanAndRegisterFiles(ctx); err != nil {
+		errs++
+	}
+	cands, err := m.migrator.FindCandidates(ctx, TierHot, TierCold)
+	if err != nil {
+		return errs + 1
+	}
+	for pass := 0; pass < 2; pass++ {
+		_, e := m.migrator.MigrateBatch(ctx, cands)
+		errs += e
+	}
+	_, _, e := m.migrator.ReconcileOrphanedFiles(ctx)
+	return errs + e
+}
